@@ -484,6 +484,13 @@ pub fn cmd_fuzz(a: &Args) {
 					// the frame id of one event replaced by an extreme value (every event of the first dozen, then strided)
 					let evs = gen::file_events(&beh);
 					let mut st = structured.lock().unwrap();
+					// the declared raw length such that the skip-frames jump 'to Game End' lands on each event instead
+					for k in (0..built.ev_offs.len()).filter(|k| *k < 12 || k % 7 == 0) {
+						let v = (built.ev_offs[k] - built.raw_start + 1 + built.end_block.len()) as u32;
+						let mut b = built.bytes.clone();
+						b[11..15].copy_from_slice(&v.to_be_bytes());
+						st.push((format!("regime:{}", beh.reg), format!("raw_len->event#{}({})", k, evs.get(k).map_or("?", |e| e.k.as_str())), b));
+					}
 					for (k, e) in evs.iter().enumerate() {
 						if !["fs", "pre", "post", "item", "fe"].contains(&e.k.as_str()) || (k >= 12 && k % 7 != 0) || k >= built.ev_offs.len() {
 							continue;
@@ -590,7 +597,7 @@ pub fn cmd_fuzz(a: &Args) {
 					sink.count(fnv(m), true);
 					let m = std::sync::Arc::new(m.clone());
 					if let Some((kind, detail)) = all_reads(m.clone(), &mut dog, deadline) {
-						let cls = format!("{},mutation:frame_id,{}", name.split(':').next().unwrap(), if kind == "panic" { panic_site(&detail) } else { String::new() });
+						let cls = format!("{},mutation:{},{}", name.split(':').next().unwrap(), if what.starts_with("raw_len") { "raw_len_event" } else { "frame_id" }, if kind == "panic" { panic_site(&detail) } else { String::new() });
 						let v = viol("file_adversary", &cls, &kind, format!("{} on {}: {}", what, name, detail));
 						sink.report(&v, &|| json!({"mutation": what, "base": name, "bytes_hex": crate::util::hex(&m[..m.len().min(1 << 20)])}));
 					}
